@@ -259,7 +259,7 @@ func (c *Client) QueryAddressBook(ctx context.Context, addressBook string, query
 		addressbookQuery.Filter.Props = append(addressbookQuery.Filter.Props, *el)
 	}
 	if query.Limit > 0 {
-		addressbookQuery.Limit = &limit{NResults: uint(query.Limit)}
+		addressbookQuery.Limit = &limit{NResults: nresults(query.Limit)}
 	}
 
 	req, err := c.ic.NewXMLRequest("REPORT", addressBook, &addressbookQuery)
